@@ -82,6 +82,30 @@ def run(ck, replay=None):
     darsia = import_darsia()
     rng = random.Random(ck.seed)
     quick = ck.tier == "quick"
+    # solver objects on grids that agree in all counts but not in shape, set up and used along every interleaving of
+    # spec/TwoObjects.tla: each solves ITS system (all formulations, direct back-end)
+    from lib import twoobj
+    thists = twoobj.histories(ck)
+    tspecs = []
+    for form in ("pressure", "flux_reduced", "full"):
+        def make(o, form=form):
+            g = darsia.Grid((3, 5) if o == "a" else (5, 3), [0.5, 0.25])
+            return (g, make_solver(darsia, g, form, "direct"))
+
+        def use(o, obj):
+            g, w = obj
+            nf_, nc_ = int(g.num_faces), int(g.num_cells)
+            fw = 1.0 + 0.1 * np.arange(nf_)
+            rhs = np.concatenate([np.cos(np.arange(nf_)), np.sin(np.arange(nc_)) - np.sin(np.arange(nc_)).mean(), [0.0]])
+            M = full_system(g, int(w.constrained_cell_flat_index), fw)
+            with warnings.catch_warnings():
+                warnings.simplefilter("ignore")
+                sol, _ = w.linear_solve(M.copy(), rhs.copy())
+            return np.asarray(sol, dtype=float)
+
+        sel = thists if not quick else [h for h in thists if len(h) <= 4]
+        tspecs.append((sel, "solver-" + form, make, use, lambda x, y: x.shape == y.shape and np.allclose(x, y, rtol=1e-8, atol=1e-10), "twin:" + form))
+    ck.cov["twin_object_histories"] = twoobj.run(ck, "C08", tspecs)
     events = []
     # (a) index bookkeeping for every shape
     # ... and for grids that agree in every count (cells, faces, entries of the reduced Jacobian, pinned cell) but not in
